@@ -110,7 +110,7 @@ func rawBytes(t *Tape, max int) string {
 }
 
 // nestedRepSpec builds the shapes the property singles out directly.
-func nestedRepSpec(t *Tape, ds *DeclSet) string {
+func nestedRepSpec(t *Tape, ds *DeclSet, light bool) string {
 	atom := func() string {
 		if len(ds.Args) > 0 && t.Draw(2) == 0 {
 			return ds.Args[t.Draw(len(ds.Args))].Name
@@ -130,6 +130,9 @@ func nestedRepSpec(t *Tape, ds *DeclSet) string {
 		inner = "OPTIONS"
 	}
 	depth := 1 + t.Draw(4)
+	if light && depth > 2 {
+		depth = 2
+	}
 	s := inner
 	for i := 0; i < depth; i++ {
 		switch t.Draw(3) {
@@ -149,27 +152,32 @@ func nestedRepSpec(t *Tape, ds *DeclSet) string {
 
 func (c03Prop) Gen(t *Tape, ph *PhaseCfg) Case {
 	if ph != nil && ph.P["pair"] == 1 {
-		return genPair(t, func() Case { return c03Prop{}.genOne(t) })
+		// scheduled steps are slow (a goroutine hand-off each): pairs use shallow specs and short command lines
+		return genPair(t, func() Case { return c03Prop{}.genOne(t, true) })
 	}
-	return c03Prop{}.genOne(t)
+	return c03Prop{}.genOne(t, false)
 }
 
-func (c03Prop) genOne(t *Tape) *c03Case {
+func (c03Prop) genOne(t *Tape, light bool) *c03Case {
 	c := &c03Case{}
 	ds := genDecls(t, 4)
 	c.DS = ds
 	var node *specNode
-	if t.Draw(40) == 0 {
+	if t.Draw(40) == 0 && !light {
 		return genManyOptions(t)
+	}
+	nest, maxArgv := 3, 6
+	if light {
+		nest, maxArgv = 2, 4
 	}
 	switch t.Weighted(4, 2, 3, 1) {
 	case 0:
-		node = genSpec(t, ds, 3, 3)
+		node = genSpec(t, ds, 3, nest)
 		c.Spec, c.Source = node.String(), "grammar"
 	case 1:
-		c.Spec, c.Source = nestedRepSpec(t, ds), "nested-repetition"
+		c.Spec, c.Source = nestedRepSpec(t, ds, light), "nested-repetition"
 	case 2:
-		node = genSpec(t, ds, 3, 3)
+		node = genSpec(t, ds, 3, nest)
 		c.Spec, c.Source = mutateSpec(t, node.String()), "mutated"
 	default:
 		c.Spec, c.Source = rawBytes(t, 40), "raw-bytes"
@@ -208,7 +216,7 @@ func (c03Prop) genOne(t *Tape) *c03Case {
 	argv := []string{"app"}
 	for _, tok := range toks {
 		// help requests are C14's subject, except when the application declares an option of that name itself
-		if ((tok == "-h" || tok == "--help") && !ownHelp) || len(argv) > 6 {
+		if ((tok == "-h" || tok == "--help") && !ownHelp) || len(argv) > maxArgv {
 			continue
 		}
 		argv = append(argv, strings.ReplaceAll(tok, "\x00", ""))
